@@ -9,7 +9,7 @@ torn in-flight write.  See DESIGN.md 2.3 / 2.6.
 import errno
 import json as _realjson
 
-from ..engine import ModelGap
+from ..engine import ModelGap, is_symbolic
 from .seq import Seq, Seg
 from .symint import ite, smin, smax, clamp, band, bnot, bor
 from . import symnp
@@ -104,6 +104,16 @@ class File:
         need = nrows * rb
         if len(atom) > 0 and order != 'C':
             return Seq.of(('forder', symnp._segs_key(self.bin)), nrows)
+        # same bytes, same interpretation -> same rows (Seq objects are immutable)
+        key = (id(self.bin), dt.name, dt.gt, tuple(atom), id(nrows) if is_symbolic(nrows) else ('c', nrows))
+        hit = _W.decode_cache.get(key)
+        if hit is not None and hit[0] is self.bin and (hit[1] is nrows or not is_symbolic(nrows)):
+            return hit[2]
+        res = self._decode(dt, atom, nrows, rb, need)
+        _W.decode_cache[key] = (self.bin, nrows, res)
+        return res
+
+    def _decode(self, dt, atom, nrows, rb, need):
         out = []
         pos = 0
         for s in self.bin.segs:
@@ -174,6 +184,7 @@ class World:
         self.torn_text = False
         self.crashed = False
         self.log = []
+        self.decode_cache = {}
         d = self.root
         for p in [x for x in cwd.split('/') if x]:
             nd = Dir()
